@@ -35,7 +35,7 @@ def applyF (W bw a c : Nat) (st : Nat × List Nat) (x : Nat) : (Nat × List Nat)
 def nat2 (x y : String) : Option (Nat × Nat) := do
   let a ← parseNat x; let b ← parseNat y; pure (a, b)
 
-def step (r : RSt) (toks : List String) : RSt × String :=
+def rstep (r : RSt) (toks : List String) : RSt × String :=
   let bad := (r, "bad-op")
   let W := r.W
   match toks with
@@ -114,6 +114,6 @@ def step (r : RSt) (toks : List String) : RSt × String :=
     | _, _ => bad
   | _ => bad
 
-def runner : Runner := { σ := RSt, init := {}, step := step }
+def runner : Runner := { σ := RSt, init := {}, step := rstep }
 
 end Sux.BFV
